@@ -79,6 +79,15 @@ func runC18(c *Ctx) {
 
 	// ---- locks
 	{
+		// subscribeDone is written only by Subscribe's own chain (initDone): that goroutine may read it back
+		// without the lock (the deferred closer does), everybody else reads under the lock
+		if rs := P.Method("client", "ReconnectClient", "Subscribe"); rs != nil {
+			if chain := ownerChain(P, "client", rs, fSubDone); chain != nil {
+				lockOwnerReads[fSubDone] = chain
+				c.Assumption("ReconnectClient.Subscribe is not called concurrently with itself (its own reads of subscribeDone are unguarded; every write is on its goroutine)")
+			}
+		}
+		defer delete(lockOwnerReads, fSubDone)
 		la := NewLockAudit(c, "client", map[*types.Var]*types.Var{fClosed: fRMu, fCancel: fRMu, fSubDone: fRMu, fBClosed: fBMu, fBImpl: fBMu}, 2)
 		la.Report(func(kind string) string { return "C18.locked" })
 		c.Check(la.Accesses >= 10, "C18.locked", "client", "guarded accesses analysed", "", fmt.Sprintf("%d accesses on paths, %d directly under their mutex", la.Accesses, la.Guarded))
@@ -202,6 +211,20 @@ func runC18(c *Ctx) {
 		e := &PPA{Cond: at.Cond, MaxVisits: mv, Watch: func(ev *Ev) bool {
 			return isInner(ev) || isCtx(ev) || isSleep(ev) || isInit(ev) || dynField(ev, fDisc) || dynField(ev, fReset) || ev.Deferred
 		}}
+		// a named closer of subscribeDone (a method deferred by Subscribe) stays a call: the rule looks for it
+		e.Opaque = map[*ssa.Function]bool{}
+		for _, pf := range P.PkgFuncs("client") {
+			if P.InTestFile(pf) || pf == rcSub || pf == initDone {
+				continue
+			}
+			instrs(pf, func(in ssa.Instruction) {
+				if call, ok := in.(*ssa.Call); ok {
+					if b, ok := call.Call.Value.(*ssa.Builtin); ok && b.Name() == "close" && len(call.Call.Args) == 1 && loadOfField(call.Call.Args[0], fSubDone) {
+						e.Opaque[pf] = true
+					}
+				}
+			})
+		}
 		e.Run(rcSub)
 		c.Paths += len(e.Paths)
 		c.Scen++
@@ -268,6 +291,20 @@ func runC18(c *Ctx) {
 				if p.Trace[j].Deferred {
 					if ex, ok := p.Trace[j].Fn.V.(*ssa.Extract); ok && ex.Index == 1 && isCallNamed(ex.Tuple, fnName(initDone)) {
 						closer = true
+					}
+					// ... or a deferred function / method of the package that closes p.subscribeDone itself
+					if ci, ok := p.Trace[j].In.(ssa.CallInstruction); ok {
+						if g := staticCallee(ci.Common()); g != nil && pkgPathOf(g) == pkgPathOf(rcSub) {
+							for _, h := range withAnon(g) {
+								instrs(h, func(in ssa.Instruction) {
+									if call, ok := in.(*ssa.Call); ok {
+										if b, ok := call.Call.Value.(*ssa.Builtin); ok && b.Name() == "close" && len(call.Call.Args) == 1 && loadOfField(call.Call.Args[0], fSubDone) {
+											closer = true
+										}
+									}
+								})
+							}
+						}
 					}
 					continue
 				}
